@@ -2,7 +2,7 @@
 table-like facts the X03 theorems rest on (`lean/PyramidModel/Gen/X03.lean`, one `Pyr.Render.Tables` term).
 
  * `JSONP_VALID_CALLBACK = re.compile(<text>, <flags>)`: the regex TEXT is parsed by a small parser restricted to what
-   such a pattern uses (optional leading `^`, optional final `$`, a sequence of single characters / `.` / bracketed
+   such a pattern uses (optional leading `^`, optional final `$` or `\\Z`, a sequence of single characters / `.` / bracketed
    classes with ranges and backslash-escaped punctuation, each with an optional `* + ? {m} {m,} {m,n}` and lazy `?`).
    Groups, alternation, `\\d \\w \\s`, look-around, back-references, other anchors, flags other than IGNORECASE: NOT
    translated -> `understood := false` (every theorem about the pattern then fails).
@@ -141,7 +141,7 @@ def parse_pattern(text, flags):
         raise Unsupported('flags %r' % flags)
     t = text
     i = 0
-    start = end = False
+    start, end = False, 'none'
     if t.startswith('^'):
         start = True
         i = 1
@@ -150,8 +150,12 @@ def parse_pattern(text, flags):
     while i < n:
         c = t[i]
         if c == '$' and i == n - 1:
-            end = True
+            end = 'dollar'
             i += 1
+            break
+        if t[i:] == '\\Z':
+            end = 'endOfString'
+            i += 2
             break
         if c in '()|^$':
             raise Unsupported('construct %r at %d' % (c, i))
@@ -620,11 +624,11 @@ def generate(src_root):
         rx = lean_rx(parsed['atoms'])
         start, end = parsed['start'], parsed['end']
     else:
-        rx, start, end = 'Rx.eps', False, False
+        rx, start, end = 'Rx.eps', False, 'none'
     pattern_ok = understood and method != 'unknown'
     fields = [
-        'pattern := { startAnchor := %s, endAnchor := %s, body := %s, method := %s, understood := %s }' % (
-            b(start), b(end), rx, {'match': '.match', 'fullmatch': '.fullmatch'}.get(method, '.unknown'), b(pattern_ok)),
+        'pattern := { startAnchor := %s, endAnchor := .%s, body := %s, method := %s, understood := %s }' % (
+            b(start), end, rx, {'match': '.match', 'fullmatch': '.fullmatch'}.get(method, '.unknown'), b(pattern_ok)),
         'patternText := %s' % lean_str(pat_text or ''),
         'ignoreCase := %s' % b(bool(flags)),
         'paramDefault := %s' % lean_text(param_default or ''),
